@@ -74,6 +74,9 @@ def findings(prog, modules=('smtlib', )):
                     for (c2, s2) in sts[i + 1:]:
                         if s1 is None or s2 is None:
                             continue
+                        if s1 is not s2 and not _reach(cfg, s1, s2) and \
+                                _reach(cfg, s2, s1):
+                            c1, s1, c2, s2 = c2, s2, c1, s1
                         if s1 is s2 or _reach(cfg, s1, s2):
                             out.append((m, q, c2,
                                         f'{q}({k.split(" @ ")[0]}) is '
